@@ -8,26 +8,33 @@
   documents have equal keys.
 
   The theorems are stated on the domain where an indexed path runs through sub-documents only
-  and ends in a scalar (or is missing): arrays (multikey, known finding `multikey`) and paths
-  that dead-end in a scalar (known finding `deadend-null`) are excluded by `ScalarKeys`.
+  and ends in a value that is not an array — a scalar, or an embedded document, whatever its keys
+  look like (`$`-prefixed ones included: the look-up compares values as data) — or is missing
+  (also: runs into a scalar before its end).  Arrays at or along the path (multikey, known
+  finding `multikey`) are excluded by `valueKeys`.
 -/
 import Spec.StoreInv
 
 namespace MongoModel.Spec
 open MongoModel
 
-/-- the path runs through sub-documents only and ends in a scalar, or is missing at a
-    sub-document -/
-def scalarPath : List String → Val → Bool
-  | [], v => isScalar v
+/-- a value an index key may hold in the domain: anything but an array, with the keys of every
+    document in it pairwise distinct (`wfVal`: what every value built from Python dicts satisfies) -/
+def isKeyable (v : Val) : Bool := !v.isArr && wfVal v
+
+/-- the path runs through sub-documents only and ends in a keyable value, or is missing: at a
+    sub-document that lacks the component, or because it runs into a scalar before its end -/
+def valuePath : List String → Val → Bool
+  | [], v => isKeyable v
   | p :: ps, .doc fs =>
     (match dget p fs with
-     | some v => scalarPath ps v
+     | some v => valuePath ps v
      | none => true)
-  | _ :: _, _ => false
+  | _ :: _, .arr _ => false
+  | _ :: _, _ => true
 
-def scalarKeys (ix : Index) (d : Val) : Bool :=
-  ix.keys.all (fun k => keyOk k.1 && !k.1.startsWith "$" && k.1 != "" && scalarPath (splitDots k.1) d)
+def valueKeys (ix : Index) (d : Val) : Bool :=
+  ix.keys.all (fun k => keyOk k.1 && !k.1.startsWith "$" && k.1 != "" && valuePath (splitDots k.1) d)
 
 /-- the index key of a document -/
 def keyVals (ix : Index) (d : Val) : List Val :=
@@ -54,9 +61,9 @@ def covers (ix : Index) (d : Val) : Bool :=
 /-- field names of the index are pairwise distinct -/
 def distinctFields (ix : Index) : Bool := (ix.keys.map (·.1)).eraseDups.length == ix.keys.length
 
-/-- every unique index of the collection is over scalar keys of all its documents -/
-def ScalarInv (c : Coll) : Prop :=
-  ∀ ix ∈ c.indexes, ix.unique = true → distinctFields ix = true ∧ ∀ p ∈ c.docs, scalarKeys ix p.2 = true
+/-- every unique index of the collection is over keyable values in all its documents -/
+def ValueInv (c : Coll) : Prop :=
+  ∀ ix ∈ c.indexes, ix.unique = true → distinctFields ix = true ∧ ∀ p ∈ c.docs, valueKeys ix p.2 = true
 
 /-- C06's invariant -/
 def UniqInv (c : Coll) : Prop :=
